@@ -7,6 +7,8 @@ open FontVerif FontVerif.ReadIter FontVerif.HandRead FontVerif.HandLayout FontVe
 def errStr : LErr → String
   | .oob => "e:O"
   | .invalidFormat n => s!"e:F{n}"
+  | .nullOffset => "e:N"
+  | .badIndex n => s!"e:C{n}"
 
 def resNat : Res Nat → String
   | .val v => toString v
@@ -43,6 +45,23 @@ def devStr (v : Dev) : String :=
   match devIter v with
   | .trap => "trap"
   | .val xs => digest (xs.map u8OfInt) ++ " " ++ joinStrs ((xs.take 12).map toString)
+
+/-- the "|"-separated number lists of a request -/
+def barLists (xs : List String) : Nat → Option (List (List Nat))
+  | 0 => none
+  | fuel + 1 =>
+    if xs.isEmpty then some []
+    else
+      let (a, b) := splitBar xs
+      match natsOrEmpty a, barLists b fuel with
+      | some s, some r => some (s :: r)
+      | _, _ => none
+
+def closureStr : Option (CR G16) → String
+  | none => "fuel"
+  | some (.ok gs) => s!"ok {digest gs}"
+  | some (.err e) => errStr e
+  | some .trap => "trap"
 
 def handle (cmd : String) (args : List String) : Option String :=
   match cmd, args with
@@ -108,6 +127,14 @@ def handle (cmd : String) (args : List String) : Option String :=
         | .ok (.device v) => s!"D {devStr v}"
         | .ok (.varIdx o i) => s!"V {o} {i}"
       some s!"{a} | {b}"
+  | "hl.closure", hex :: rest =>
+    match parseHex? hex, barLists rest (rest.length + 1) with
+    | some d, some sets =>
+      match gsubRead d with
+      | .error e => some (errStr e)
+      | .ok g =>
+        some (" | ".intercalate (sets.map (fun s => closureStr (closureGlyphs g (G16.ofList s) 70000 2000000))))
+    | _, _ => none
   | "hl.slist", hex :: rest =>
     -- `rest` = tags for `index_for_tag` | tags for `select`
     match parseHex? hex with
